@@ -44,6 +44,7 @@ use undermoon::coordinator::verif::{
     PingFailureDetector, ProxiesRetriever, ProxyMetaRespSender, ProxyMetaRespSynchronizer, ProxyMetaSynchronizer,
     ReplaceNodeHandler,
 };
+use undermoon::coordinator::service::{CoordinatorConfig, CoordinatorService};
 use undermoon::protocol::{
     Array, BinSafeStr, BulkStr, OptionalMulti, RedisClient, RedisClientError, RedisClientFactory, Resp,
     RespPacket, RespVec,
@@ -1402,10 +1403,37 @@ async fn run_steps(w: Arc<World>, steps: Vec<Vec<String>>) -> (Vec<String>, Vec<
     let mut ops_words: Vec<String> = vec![];
     let mut round_words: Vec<String> = vec![];
     let mut fm_words: Vec<String> = vec![];
+    let mut svc_words: Vec<String> = vec![];
     w.record_served(false);
     for (si, toks) in steps.iter().enumerate() {
         let u = |k: usize| -> usize { toks[k].parse().expect("num") };
         match toks[0].as_str() {
+            "service" => {
+                // wiring probe: the production CoordinatorService (its four loops as service.rs assembles them, 1 s timers) runs for a
+                // while over the fake broker / network without faults; must be the last step of a case (the model does not follow it)
+                {
+                    let mut c = w.ctl.lock();
+                    c.crashed = false;
+                    c.listing = Some(true);
+                }
+                let cfg = CoordinatorConfig {
+                    address: "127.0.0.1:0".to_string(),
+                    broker_addresses: Arc::new(ArcSwap::new(Arc::new(vec![]))),
+                    reporter_id: "c7".to_string(),
+                    thread_number: 1,
+                    proxy_timeout: 1,
+                    enable_compression: false,
+                    disable_failover: false,
+                };
+                let db = Arc::new(FakeBroker { w: w.clone(), faulty: true });
+                let svc = CoordinatorService::new(cfg, db.clone(), db, CoordNet { w: w.clone() });
+                let _ = tokio::time::timeout(Duration::from_millis(u(1) as u64), svc.run()).await;
+                let tr = take_trace(&w);
+                let o = observe(&w).await;
+                svc_words.push(format!("svctr={} svc{}", tr, o.replace(" pend=", " svcpend=").replace(" nc=", " svcnc=")));
+                prog.push("nop".to_string());
+                obs.push("F".to_string());
+            }
             "snapshot" => {
                 let copy = { w.store.lock().clone() };
                 *w.snap.lock() = Some(copy);
@@ -1745,7 +1773,7 @@ async fn run_steps(w: Arc<World>, steps: Vec<Vec<String>>) -> (Vec<String>, Vec<
     failed.sort();
     let j = |v: &Vec<String>| if v.is_empty() { "-".to_string() } else { v.join(",") };
     obs.push(format!(
-        "Z ops={} rounds={} fm={} failed={} restores={} fin={} cmis={} order={}",
+        "Z ops={} rounds={} fm={} failed={} restores={} fin={} cmis={} {}order={}",
         j(&ops_words),
         j(&round_words),
         j(&fm_words),
@@ -1753,6 +1781,7 @@ async fn run_steps(w: Arc<World>, steps: Vec<Vec<String>>) -> (Vec<String>, Vec<
         j(&restores),
         fin.join(","),
         if cmis.is_empty() { "ok".to_string() } else { cmis.join("+") },
+        if svc_words.is_empty() { String::new() } else { format!("{} ", svc_words.join(" ")) },
         if ov.is_empty() { "ok".to_string() } else { ov.join("+") }
     ));
     (prog, obs)
